@@ -108,3 +108,18 @@ Proof.
   split; [vm_compute; reflexivity|].
   eexists. eexists. split; [vm_compute; reflexivity|]. repeat split; vm_compute; reflexivity.
 Qed.
+
+(* ---------------------------------------------------------------- the agreement hypothesis is satisfiable by a non-trivial oracle *)
+(* member hx_a has valid signatures over ONE digest only (hx_d0); every other address over anything *)
+Definition hx_a : addr := qx_owns 0.
+Definition hx_d0 : bytes := repeat x07 32.
+Definition hx_recover (h s : bytes) : option bytes :=
+  if bytes_eqb h hx_d0 || negb (bytes_eqb (firstn 20 s) hx_a) then Some (firstn 20 s) else None.
+Lemma ex_one_digest_per_id keccak : one_digest_per_id hx_recover keccak hx_a.
+Proof.
+  assert (A : forall h s, Processor.rec hx_recover h s = Some hx_a -> h = hx_d0).
+  { intros h s. unfold Processor.rec, recover_checked. destruct (_ && _)%nat; [|discriminate]. destruct (nth_error s 64); [|discriminate].
+    destruct (_ <? _); [|discriminate]. unfold hx_recover. destruct (bytes_eqb_spec h hx_d0) as [->|_]; [reflexivity|]. cbn [orb].
+    destruct (bytes_eqb_spec (firstn 20 s) hx_a) as [E|N]; cbn [negb]; [discriminate|]. intros X. inversion X. contradiction. }
+  intros v1 v2 _ (s1 & _ & R1) (s2 & _ & R2). rewrite (A _ _ R1), (A _ _ R2). reflexivity.
+Qed.
